@@ -76,6 +76,28 @@ def run_extract():
     return problems
 
 
+def generated_imports(modules):
+    """names X of the modules Goflow.Generated.X reachable through imports from the given Lean modules"""
+    seen, todo, gen = set(), list(modules), set()
+    while todo:
+        m = todo.pop()
+        if m in seen:
+            continue
+        seen.add(m)
+        if m.startswith("Goflow.Generated."):
+            gen.add(m.split(".")[-1])
+        path = os.path.join(LEAN, *m.split(".")) + ".lean"
+        try:
+            for l in open(path):
+                if l.startswith("import "):
+                    dep = l.split()[1]
+                    if dep.startswith("Goflow") or dep.startswith("Proofs"):
+                        todo.append(dep)
+        except OSError:
+            pass
+    return gen
+
+
 def lake_build(targets):
     rc, out = sh(["lake", "build"] + targets, cwd=LEAN)
     return rc, out
@@ -649,7 +671,13 @@ def run_property(prop, tier, seed):
 
     with Lock("build.lock"):
         build_extract()
-        broken += run_extract()
+        # a problem of the extractor concerns a property only if one of its proof modules (or the model driver)
+        # imports, directly or not, the generated file the extractor was writing
+        relevant = generated_imports(list(spec["modules"]) + ["Driver"])
+        for pr in run_extract():
+            m = re.match(r"EXTRACT-PROBLEM: \[([A-Za-z]*)\]", pr)
+            if m is None or m.group(1) == "" or m.group(1) in relevant:
+                broken.append(pr)
         targets = list(spec["modules"]) + ["goflow-model"]
         rc, out = lake_build(targets)
         lake_failed = rc != 0
